@@ -102,6 +102,47 @@ fn batch_rhat(bs: &[Batch], p: usize) -> Vec<f64> {
         .collect()
 }
 
+/// A parameter that has not moved yet in any chain (every chain sits on its own small integer, exactly
+/// representable, so count, mean and mean square are exact and the within-chain variance is exactly 0) while
+/// the chain means differ: sqrt(var+/W) of those draws is +inf, and both R-hat routes have to say so (the
+/// remaining parameters move, with distinct integers per update, and keep a finite R-hat).
+fn frozen_parameter_check<T: TElt>(o: &mut Outcome, nc: usize, p: usize, seed: u64) {
+    if nc < 2 {
+        return;
+    }
+    let n = 2 + (mix(seed, 0xf0) % 40) as usize;
+    let frozen = (mix(seed, 0xf1) % p as u64) as usize;
+    let v = |c: usize, k: usize, j: usize| -> f64 { if j == frozen { (c % 7) as f64 } else { ((c * 3 + k * (j + 1) + (mix(seed, (c * 64 + k) as u64) % 5) as usize) % 11) as f64 } };
+    let mut trackers: Vec<ChainTracker> = (0..nc).map(|c| ChainTracker::new(p, &(0..p).map(|j| T::of(v(c, 0, j))).collect::<Vec<T>>())).collect();
+    let mut multi = MultiChainTracker::new(nc, p);
+    for k in 1..=n {
+        let mut flat: Vec<T> = vec![];
+        for c in 0..nc {
+            let x: Vec<T> = (0..p).map(|j| T::of(v(c, k, j))).collect();
+            if trackers[c].step(&x).is_err() {
+                return;
+            }
+            flat.extend(x);
+        }
+        if multi.step(&flat).is_err() {
+            return;
+        }
+    }
+    let stats: Vec<ChainStats> = trackers.iter().map(|t| t.stats()).collect();
+    let refs: Vec<&ChainStats> = stats.iter().collect();
+    let got = collect_rhat(&refs);
+    o.count("probe_frozen_parameter_rhat", 1);
+    if !(got[frozen] == f32::INFINITY) {
+        o.violate("collect_rhat", "collect_rhat:zero-within-variance", format!("{nc} chains x {p} params, n = {n}: parameter {frozen} sits on a different constant in every chain (W = 0, var+ > 0): sqrt(var+/W) = inf but collect_rhat[{frozen}] = {}", got[frozen]));
+        return;
+    }
+    if let Ok(r) = multi.rhat() {
+        if !(r[frozen] == f32::INFINITY) {
+            o.violate("multi_rhat", "MultiChainTracker::rhat:zero-within-variance", format!("{nc} chains x {p} params, n = {n}: parameter {frozen} sits on a different constant in every chain: sqrt(var+/W) = inf but MultiChainTracker::rhat[{frozen}] = {}", r[frozen]));
+        }
+    }
+}
+
 fn tracker_histories<T: TElt>(params: &Value, ws: bool) -> Outcome {
     let mut o = Outcome::default();
     let (nc, p, n) = (pus(params, "chains"), pus(params, "params"), pus(params, "n"));
@@ -286,6 +327,9 @@ fn tracker_histories<T: TElt>(params: &Value, ws: bool) -> Outcome {
             o.count("probe_rhat_compared", 1);
             o.count("probe_rhat_far_from_one", (want.iter().any(|r| *r > 1.5)) as u64);
         }
+    }
+    if o.violations.is_empty() {
+        frozen_parameter_check::<T>(&mut o, nc, p, seed);
     }
     o.hash = str_hash(&params.to_string());
     o.nontrivial = n >= 2;
